@@ -242,7 +242,7 @@ func flattenPath(x *CExpr) (root string, comps []string, kind string) {
 		r, c, _ := flattenPath(x.Args[0])
 		return r, c, "contents"
 	case "call":
-		if x.Name == "opaque" || x.Name == "mapof" {
+		if x.Name == "opaque" || x.Name == "mapof" || x.Name == "families" {
 			return "", nil, x.Name
 		}
 	}
@@ -436,6 +436,24 @@ func (eng *Engine) frameObligations(fn *ssa.Function, fc *FuncContract) []struct
 				for _, m := range cfc.Modifies {
 					root, comps, kind := flattenPath(m.Expr)
 					if kind == "ghost" || kind == "opaque" {
+						continue
+					}
+					if kind == "families" {
+						// the caller must declare every family the callee declares
+						want := map[string]bool{}
+						for _, a := range m.Expr.Args {
+							want[a.Name] = true
+						}
+						for _, mm := range fc.Modifies {
+							if _, _, k := flattenPath(mm.Expr); k == "families" {
+								for _, a := range mm.Expr.Args {
+									delete(want, a.Name)
+								}
+							}
+						}
+						for w := range want {
+							report(ins.Pos(), "callee "+cfc.Key+" modifies family "+w+" which the caller does not declare")
+						}
 						continue
 					}
 					if kind == "mapof" {
